@@ -184,7 +184,7 @@ class Ctx:
                 done[0] += 1
                 if ctx.out_of_time():
                     return
-                fn(case)
+                guarded(ctx, fn, case)
 
             try:
                 run()
@@ -209,6 +209,26 @@ class Ctx:
             "notes": self.notes,
             "truncated": self.truncated,
         }
+
+
+def guarded(ctx: "Ctx", fn: Callable, case):
+    """Run ``fn(case)``.  An exception that escapes the check and was raised by adaptix itself (not by harness code) is
+    a verdict, not a harness failure: an operation inside the property's domain crashed, so the property cannot hold
+    for that case.  Reported as violation kind ``adaptix_crashed`` with the exception class and raising site."""
+    try:
+        return fn(case)
+    except (env.HarnessError, KeyboardInterrupt, SystemExit, MemoryError, RecursionError):
+        raise
+    except Exception as ex:  # noqa: BLE001
+        from .errors import crash_owner  # noqa: PLC0415
+        owner, site = crash_owner(ex)
+        if owner != "adaptix":
+            raise
+        tail = "".join(traceback.format_exception(type(ex), ex, ex.__traceback__)[-3:])
+        ctx.violation("adaptix_crashed", (type(ex).__name__, site), case,
+                      f"{type(ex).__name__} escaped from adaptix at {site} during an operation the check expects to "
+                      f"work: {ex!r}\n{tail}")
+        return None
 
 
 def merge(parts: list[dict]) -> dict:
@@ -296,8 +316,19 @@ def _run_shard(shard: int) -> dict:
     ctx = Ctx(a["prop"], a["tier"], a["seed"], shard, a["nshards"], wall_cap=a["wall_cap"])
     try:
         a["explore"](ctx)
-    except BaseException:  # noqa: BLE001
+    except (env.HarnessError, KeyboardInterrupt, SystemExit, MemoryError, RecursionError):
         return {"error": traceback.format_exc(), "shard": shard}
+    except BaseException as ex:  # noqa: BLE001
+        # outside ctx.given (enumerations, state machines) nothing guards single cases: an exception raised by adaptix
+        # itself still is a verdict (see ``guarded``); the rest of this shard's exploration is lost
+        from .errors import crash_owner  # noqa: PLC0415
+        owner, site = crash_owner(ex)
+        if owner != "adaptix":
+            return {"error": traceback.format_exc(), "shard": shard}
+        tb = traceback.format_exc()
+        ctx.violation("adaptix_crashed", (type(ex).__name__, site), {"unreplayable": True, "traceback": tb[-4000:]},
+                      f"{type(ex).__name__} escaped from adaptix at {site} and ended the exploration of shard {shard}: "
+                      f"{ex!r}")
     return ctx.partial()
 
 
@@ -326,7 +357,7 @@ def _shrink(prop, check_case, strategy, bucket, budget, seed):
         c = Ctx(prop, "quick", seed)
         c.replaying = True
         try:
-            check_case(c, case)
+            guarded(c, lambda k: check_case(c, k), case)
         except Exception:  # noqa: BLE001
             return False
         b = c.buckets.get(sig)
@@ -381,7 +412,7 @@ def main(prop: str, *, explore: Callable[[Ctx], None], check_case: Optional[Call
                     continue
                 with open(os.path.join(rdir, name)) as f:
                     rec = json.load(f)
-                check_case(rctx, rec["case"])
+                guarded(rctx, lambda k: check_case(rctx, k), rec["case"])
                 replayed += 1
             parts.append(rctx.partial())
 
@@ -486,9 +517,13 @@ def _main_replay(prop, check_case, path, seed) -> int:
         raise env.HarnessError("this property has no replay entry point")
     with open(path) as f:
         rec = json.load(f)
+    if isinstance(rec.get("case"), dict) and rec["case"].get("unreplayable"):
+        print(f"[{prop}] {path} records a crash outside a single case; the recorded traceback follows, "
+              f"re-run the check itself to reproduce it\n{rec['case'].get('traceback', '')}")
+        return 1
     ctx = Ctx(prop, "quick", seed)
     ctx.replaying = True
-    check_case(ctx, rec["case"])
+    guarded(ctx, lambda k: check_case(ctx, k), rec["case"])
     known = load_known(prop)
     rc = 0
     for sig in sorted(ctx.buckets):
